@@ -1,8 +1,43 @@
-from .base import Check
+"""C01 -- every returned Manifold is a closed oriented 2-manifold or an empty error.
+
+Safety invariant evaluated on every object the simulation materialises. What
+the simulator owns here is the schedule of the parallel topology code
+(CreateHalfedges' partitioned branch, PAR-only SplitPinchedVerts/DedupeEdges,
+Face2Tri's task_group) at lowered and at shipped thresholds; the program
+dimension is sampled as simulation workload (degenerate/coincident operands
+over-weighted)."""
+import gen
+from .progbase import ProgCheck
+
+BIG = ["sphere:500,66", "sphere:700,66", "rot:1,123,456,789"]
+MIX_BIG = dict(gen.MIX_GENERAL)
+for k in ("minksum", "minkdiff", "refinelen", "refinetol", "levelset", "refine"):
+    MIX_BIG[k] = 0
 
 
-class Stub(Check):
+class C01(ProgCheck):
     prop = "C01"
+    flag = "c01"
+    level = "exploration"
+    flavours = ["ser", "par", "par-asan"]
+    assumptions = [
+        "the invariant is an independent re-implementation of the statement over GetMeshGL64() + merge vectors",
+        "programs are sampled (seeded), not enumerated; lowered thresholds (hook H2) are used to drive the parallel topology "
+        "paths on small meshes, the 'big' arm runs them at shipped thresholds",
+    ]
+    arms = [
+        ("lattice", 30, {"mix": gen.MIX_LATTICE, "nops": (6, 20), "flavours": ["ser", "par", "par", "par-asan"], "thr": [64, 64, 16],
+                         "seed_ops": ["lbox:0,0,0,1,1,1", "lbox:1,0,0,0,0,0"]}),
+        ("general", 30, {"mix": gen.MIX_GENERAL, "nops": (8, 24), "flavours": ["ser", "par", "par", "par-asan"], "thr": [64, 64, 16]}),
+        ("lazy", 8, {"mix": gen.MIX_LATTICE, "nops": (6, 16), "flavours": ["ser", "par"], "thr": [64], "extra_args": {"lazy": 1},
+                     "seed_ops": ["lbox:0,0,0,1,1,1", "lbox:1,1,0,0,0,0"]}),
+        ("big", 3, {"mix": MIX_BIG, "nops": (5, 8), "size": "big", "flavours": ["par"], "thr": [1], "seed_ops": BIG, "timeout": 600, "min_time_left": 90,
+                    "extra_args": {"maxtri": 150000}}),
+    ]
+
+    def finish_cov(self):
+        self.cov["rule"] = ("one evaluation = one simulated run of one seeded program with the invariant checked on every "
+                            "materialised Manifold; distinct = distinct (program, decision hash); non-trivial = at least 3 objects materialised")
 
 
-CHECK = Stub()
+CHECK = C01()
